@@ -66,7 +66,7 @@ CLAIMED = {
             "Generated-input search over Modular streams whose every stored and intermediate value fits 16 bits by construction; narrow-buffer decode (AVX2 kernels on this host) must equal forced-wide decode sample for sample, and both must equal the original image.",
             "Trusted: the encoder's range simulation defines 'truthful'; inverse-transform intermediates (squeeze tendency terms, RCT sums) are included after a counter-example showed the decoder evaluates them in 16-bit lanes (see DESIGN §7).",
             "DESIGN.md §4 C12"),
-    "C13": ("fault_enumeration",
+    "C13": ("exploration",
             "PBT with fault thresholds: generated (valid or mutated) streams x generated allocation limits around the clean run's measured usage x call sequences; accounting invariants observed through a cfg(jxl_oxide_verif) accessor; checked build, worker-process isolation",
             "Generated-input search over streams, limits (0, 1, thresholds derived from a clean run, ample) and call sequences; after everything is dropped the tracker must hold exactly its initial budget, the available bytes never exceed the initial limit, and no configuration may panic, abort or hang (overflow checks and debug assertions enabled).",
             "Trusted: the hook only reads counters. Tracked totals are observed between API calls. Whether a too-small limit must produce an error is not asserted (the library may skip optional scratch buffers).",
